@@ -301,7 +301,7 @@ def gen_cleanup(rng, tier, open_keys):
 
 
 def gen(rng, tier, open_keys):
-    per = 60 if tier == "quick" else 6000
+    per = 60 if tier == "quick" else 7500
     out, seen = [], set(corpus())
     for _ in range(per):
         for g in (gen_orch, gen_group, gen_cleanup, lambda r, t, o: gen_pool(r, t, o, "wp"), lambda r, t, o: gen_pool(r, t, o, "hp")):
@@ -643,6 +643,48 @@ def main(tier, seed, replay):
         return ok, out
     C.run_lines, C.lake_build = run_lines, lake_build
     try:
-        return diffcheck.run(sys.modules[__name__], tier, seed, replay)
+        rc = diffcheck.run(sys.modules[__name__], tier, seed, replay)
     finally:
         C.run_lines, C.lake_build = orig, orig_build
+    if tier == "thorough" and not replay and os.environ.get("VERIF_C11_NO_RACE") != "1":
+        rc = race_pass(seed) or rc
+    return rc
+
+
+def race_pass(seed, n=10000):
+    """thorough tier: the same kind of scenarios on a harness built with -race; a report of the race detector or a
+    failure of the property predicate is a violation (the observations are not compared with the model again)"""
+    import json, random, time
+    t0 = time.time()
+    rep = C.Report(PROP)
+    ok, out, hbin = C.build_harness(race=True)
+    if not ok:
+        print(out[-2000:]); print("ERROR: the -race harness does not build")
+        return 2
+    rng = random.Random(seed * 7919 + 11)
+    open_keys = {f["key"] for f in C.known_findings(PROP) if f.get("status") == "open"}
+    cases = (corpus() + gen(rng, "thorough", open_keys))[:n]
+    env = dict(os.environ, **HARNESS_ENV)
+    obs, rc, err = C.run_lines(hbin, [PROP], cases, timeout=3000, env=env)
+    bad = [(l, o, predicate(l, o)) for l, o in zip(cases, obs) if predicate(l, o)]
+    bad = [(l, o, w) for l, o, w in bad if predicate(l, C.run_lines(hbin, [PROP], [l], timeout=300, env=env)[0][0])][:3]
+    for k, (l, o, w) in enumerate(bad):
+        path = C.write_replay(PROP, f"violation-race-{seed}-{k}.txt", f"# property {PROP} (-race build): {w}\n{l}\n# implementation: {o}\n")
+        rep.violation(path, w[:300])
+    raced = rc == 66 or "DATA RACE" in err or "data race" in err
+    if raced:
+        path = C.write_replay(PROP, f"violation-race-{seed}-detector.txt",
+                              f"# property {PROP}: the race detector reported a data race while the scenarios ran\n# stderr (tail):\n"
+                              + "\n".join("# " + x for x in err[-3000:].splitlines()) + "\n")
+        rep.violation(path, "the race detector reported a data race in the constructs under the C11 scenarios", found=False)
+    try:
+        evp = os.path.join(C.VERIF, "evidence", PROP + ".json")
+        ev = json.load(open(evp))
+        ev["coverage"]["race_pass"] = {"cases": len(cases), "predicate_failures": len(bad), "race_reports": int(raced),
+                                       "wall_s": round(time.time() - t0, 1)}
+        ev["violations"] = ev.get("violations", 0) + len(rep.violations)
+        json.dump(ev, open(evp, "w"), indent=1, sort_keys=True)
+    except Exception as e:  # noqa
+        print("note: could not add the race pass to the evidence:", e)
+    print(f"{PROP}: -race pass: {len(cases)} cases, {len(bad)} property failures, race reports: {int(raced)}; {time.time()-t0:.1f}s")
+    return rep.finish()
